@@ -481,7 +481,8 @@ func (t *Topic) infoSubsOffline(from types.Uid, what string, seq int, skipSid st
 
 	for uid, pud := range t.perUser {
 		mode := pud.modeGiven & pud.modeWant
-		if pud.deleted || !mode.IsPresencer() || !mode.IsReader() {
+		// Channel readers don't get receipts or typing notifications of other users.
+		if pud.deleted || pud.isChan || !mode.IsPresencer() || !mode.IsReader() {
 			continue
 		}
 
